@@ -104,9 +104,29 @@ class Ctx:
         return r, tlaval.iter_dump(path)
 
     def validate_traces(self, name, trace_module, traces, payload_extra=None, invariants=(), max_reject=8,
-                        workers=8, consts=None, cfg_consts=None, label=None, timeout=3600):
+                        workers=8, consts=None, cfg_consts=None, label=None, timeout=3600, max_events=400000):
         """Batch trace validation. traces: list of event lists. Returns list of rejections
-        [(tid (0-based), l (1-based index of the first event not allowed), state)]."""
+        [(tid (0-based), l (1-based index of the first event not allowed), state)].
+        Large sets are validated in shards of about max_events events (TLC holds the whole JSON payload in memory)."""
+        total = sum(len(t) for t in traces)
+        if total > max_events and len(traces) > 1:
+            out, lo, shard = [], 0, 0
+            while lo < len(traces) and len(out) < max_reject:
+                hi, n = lo, 0
+                while hi < len(traces) and (hi == lo or n + len(traces[hi]) <= max_events):
+                    n += len(traces[hi])
+                    hi += 1
+                extra = None
+                if payload_extra:
+                    extra = {k: (v[lo:hi] if isinstance(v, list) and len(v) == len(traces) else v) for k, v in payload_extra.items()}
+                shard += 1
+                rej = self.validate_traces('%s_s%d' % (name, shard), trace_module, traces[lo:hi], payload_extra=extra, invariants=invariants,
+                                           max_reject=max_reject - len(out), workers=workers, consts=consts, cfg_consts=cfg_consts, label=label,
+                                           timeout=timeout, max_events=max_events)
+                out += [(t + lo, l, st) for t, l, st in rej]
+                shutil.rmtree(self.wdir('MCT_%s_s%d' % (name, shard)), ignore_errors=True)
+                lo = hi
+            return out
         rejects = []
         live = list(range(len(traces)))
         name = 'MCT_' + name
